@@ -161,6 +161,20 @@ func PeekNatives() []any {
 	}
 	return []any{cs, hs}
 }
+// CallPut / CallTake: cross-contract calls the caller's manifest must permit (unless the callee declares the method safe)
+func CallPut(h interop.Hash160, k, v []byte) { contract.Call(h, "put", contract.All, k, v) }
+func CallTake(h interop.Hash160, x any) int { return contract.Call(h, "take", contract.All, x).(int) }
+// Witnessed: CheckWitness as THIS contract sees it (a signer with a group scope is a witness here iff the manifest of
+// this contract lists one of the groups); the answer is stored
+func Witnessed(acc interop.Hash160) bool {
+	ok := runtime.CheckWitness(acc)
+	v := 0
+	if ok {
+		v = 1
+	}
+	storage.Put(storage.GetContext(), []byte{0xEC}, v)
+	return ok
+}
 func Take(x any) int { return VERSION }
 func Relay(h interop.Hash160, x any) int { return contract.Call(h, "take", contract.ReadOnly, x).(int) }
 func Update(nef, manif []byte) { management.Update(nef, manif) }
@@ -242,7 +256,10 @@ func (c *c05Chain) c01BuildTx(op c05Op) (*transaction.Transaction, error) {
 		if err != nil {
 			return nil, err
 		}
-		mb, _ := json.Marshal(cc.v1.Manifest)
+		var mb []byte
+		if err := c05Try(func() { mb, _ = json.Marshal(c01ShapeManifest(c.t, u, op.F, op.K, false)) }); err != nil {
+			return nil, err
+		}
 		nb, _ := cc.v1.NEF.Bytes()
 		return c.mkTx(c.mgmtH, "deploy", []any{nb, mb, nil}, 20_0000_0000, nil, op.F)
 	case "cupdate":
@@ -250,7 +267,10 @@ func (c *c05Chain) c01BuildTx(op c05Op) (*transaction.Transaction, error) {
 		if err != nil {
 			return nil, err
 		}
-		mb, _ := json.Marshal(cc.v2.Manifest)
+		var mb []byte
+		if err := c05Try(func() { mb, _ = json.Marshal(c01ShapeManifest(c.t, u, op.To, op.K, true)) }); err != nil {
+			return nil, err
+		}
 		nb, _ := cc.v2.NEF.Bytes()
 		return c.mkTx(h, "update", []any{nb, mb}, 20_0000_0000, nil, op.F)
 	case "cdestroy":
@@ -293,6 +313,32 @@ func (c *c05Chain) c01BuildTx(op c05Op) (*transaction.Transaction, error) {
 			return nil, err
 		}
 		return c.mkTx(h, "sweep", []any{int64(op.N)}, 30_0000_0000, nil, op.F)
+	case "ccall": // the contract of To calls the contract of W: N = 0 relay -> take (read-only), 1 callTake, 2 callPut
+		h, _, err := target()
+		if err != nil {
+			return nil, err
+		}
+		if op.W < 1 || op.W > 14 {
+			return nil, fmt.Errorf("no callee contract %d", op.W)
+		}
+		var h2 util.Uint160
+		if err := c05Try(func() { h2 = c01ContractHash(c.t, u, op.W) }); err != nil {
+			return nil, err
+		}
+		switch op.N % 3 {
+		case 0:
+			return c.mkTx(h, "relay", []any{h2, op.A}, c05FeeSimple, nil, op.F)
+		case 1:
+			return c.mkTx(h, "callTake", []any{h2, op.A}, c05FeeSimple, nil, op.F)
+		default:
+			return c.mkTx(h, "callPut", []any{h2, kb(7, op.K), []byte{byte(op.A), 1}}, c05FeeSimple, nil, op.F)
+		}
+	case "cgrp": // witnessed(F) of the contract of To, the signer F carrying the scope CustomGroups{key K}
+		h, _, err := target()
+		if err != nil {
+			return nil, err
+		}
+		return c.mkTxGroupScoped(h, "witnessed", []any{u.hashes[op.F]}, c05FeeSimple, op.F, ((op.K%len(u.keys))+len(u.keys))%len(u.keys))
 	case "cfills": // serialised values under prefix N (4 or 5)
 		h, _, err := target()
 		if err != nil {
@@ -543,7 +589,10 @@ type c01RoleQ struct {
 	Role, Index int
 	Keys        []int
 }
-type c01ContractQ struct{ A, ID, Counter int }
+type c01ContractQ struct {
+	A, ID, Counter int
+	Shape          string // Coq term of the permissions / groups / safe methods of the served manifest
+}
 
 func c01Hash(parts ...[]byte) string {
 	h := sha256.New()
@@ -801,7 +850,17 @@ func c01Queries(bc *core.Blockchain, u *c05Universe, o *c01Obs, bad func(string,
 				id, _ := f[0].TryInteger()
 				cnt, _ := f[1].TryInteger()
 				if id != nil && cnt != nil {
-					o.ContractQ = append(o.ContractQ, c01ContractQ{acct, int(id.Int64()), int(cnt.Int64())})
+					q := c01ContractQ{A: acct, ID: int(id.Int64()), Counter: int(cnt.Int64())}
+					if len(f) >= 5 {
+						m, complaint := c01ServedManifest(&c05TB{}, u, acct, q.Counter, f[4])
+						if complaint != "" {
+							bad("%s", complaint)
+						}
+						if m != nil {
+							q.Shape = c01ShapeTerm(u, m)
+						}
+					}
+					o.ContractQ = append(o.ContractQ, q)
 				}
 			}
 		}, mgmH, "getContract", contracts[100+a])
@@ -1426,6 +1485,12 @@ func c01RandomOp(g *c05Gen, deployed map[int]bool) c05Op {
 		}
 		return c05Op{T: "citer", F: a, To: anyDeployed(), N: seed, W: r.intn(6), K: opts, A: int64(pick(r, []int{0, 0, 0, 1, 1, 2}))}
 	}
+	if r.chance(5) { // outcomes that depend on manifest details (see c01ManifestUses)
+		if r.chance(30) {
+			return c05Op{T: "cgrp", F: a, To: anyDeployed(), K: r.intn(3)}
+		}
+		return c05Op{T: "ccall", F: a, To: anyDeployed(), W: anyDeployed(), N: r.intn(3), K: r.intn(4), A: int64(r.intn(100))}
+	}
 	if r.chance(3) {
 		return c05Op{T: "cfills", F: a, To: anyDeployed(), N: 4 + r.intn(2), A: int64(1 + r.intn(20))}
 	}
@@ -1450,7 +1515,7 @@ func c01RandomOp(g *c05Gen, deployed map[int]bool) c05Op {
 		return c05Op{T: "role", A: int64(r.intn(4)), K: r.intn(14), N: r.intn(3)}
 	case x < 76:
 		deployed[a] = true
-		return c05Op{T: "deploy", F: a}
+		return c05Op{T: "deploy", F: a, K: r.intn(c01NShapes)}
 	case x < 80:
 		return c05Op{T: "cput", F: a, To: anyDeployed(), N: r.intn(4), K: r.intn(6), A: int64(r.intn(400))}
 	case x < 84: // a call with an unusual but legal argument, directly or relayed through the contract
@@ -1470,12 +1535,31 @@ func c01RandomOp(g *c05Gen, deployed map[int]bool) c05Op {
 	case x < 96:
 		return c05Op{T: "csweep", F: a, To: anyDeployed(), N: r.intn(4)}
 	case x < 97:
-		return c05Op{T: "cupdate", F: a, To: anyDeployed()}
+		return c05Op{T: "cupdate", F: a, To: anyDeployed(), K: r.intn(c01NShapes)}
 	case x < 98:
 		return c05Op{T: "cdestroy", F: a, To: mutable()}
 	default:
 		return c05Op{T: pick(r, []string{"wl", "wl", "wlrm"}), To: anyDeployed(), A: int64(r.intn(3)) * int64(1+r.intn(2000000))}
 	}
+}
+
+// c01ManifestUses: transactions whose outcome depends on a detail of the manifest of the contract of d as the node has
+// it in its Management cache: cross-contract calls from d (permitted or not by each permission shape; a safe callee
+// method needs no permission), calls into d from 13 / 14 (their permissions, d's groups and safe flags), a write through
+// a method d may have declared safe, CheckWitness inside d for a signer with a group scope (d's groups).
+func c01ManifestUses(r *rng, d int) []c05Op {
+	sg := func() int { return pick(r, c05Signers) }
+	out := []c05Op{
+		{T: "ccall", F: sg(), To: d, W: 13, N: r.intn(3), K: r.intn(4), A: int64(r.intn(100))},
+		{T: "ccall", F: sg(), To: d, W: 14, N: r.intn(3), K: r.intn(4), A: int64(r.intn(100))},
+		{T: "ccall", F: sg(), To: pick(r, []int{13, 14}), W: d, N: r.intn(3), K: r.intn(4), A: int64(r.intn(100))},
+		{T: "cput", F: sg(), To: d, N: 1, K: r.intn(3), A: int64(r.intn(50))},
+		{T: "cgrp", F: sg(), To: d, K: r.intn(3)},
+	}
+	if r.chance(50) {
+		out = append(out, c05Op{T: "ccall", F: sg(), To: d, W: d, N: 2, K: r.intn(4), A: 1}, c05Op{T: "cgrp", F: sg(), To: pick(r, []int{13, 14}), K: r.intn(2)})
+	}
+	return out
 }
 
 // c01MultiUpdate: 2-3 updates of ONE committee setting for one block (a "set2" transaction carries two of them),
@@ -1583,7 +1667,13 @@ func c01Generate(r *rng, c *c05Chain, run *c05Runner, nblocks int) ([]c05Op, err
 		for _, d := range []int{13, 14} {
 			if r.chance(80) {
 				deployed[d] = true
-				if err := emit(c05Op{T: "deploy", F: d}); err != nil {
+				// 13: the compiler's manifest or member of group G1; 14: compiler's, member of G0 without permissions, or
+				// the group / hash permissions of shape 6 (neither declares a safe method: they are the call targets)
+				k := pick(r, []int{0, 0, 3})
+				if d == 14 {
+					k = pick(r, []int{0, 5, 6})
+				}
+				if err := emit(c05Op{T: "deploy", F: d, K: k}); err != nil {
 					return g.ops, err
 				}
 			}
@@ -1735,16 +1825,18 @@ func c01Generate(r *rng, c *c05Chain, run *c05Runner, nblocks int) ([]c05Op, err
 				// then a second deployment and a whitelisting that must fail
 				d := pick(r, c05Signers[:12])
 				deployed[d] = true
-				if err := emit(c05Op{T: "deploy", F: d}); err != nil {
+				if err := emit(c05Op{T: "deploy", F: d, K: r.intn(c01NShapes)}); err != nil {
 					return g.ops, err
 				}
-				later = append(later, []c05Op{{T: "cupdate", F: pick(r, c05Signers), To: d}})
-				later = append(later, []c05Op{{T: "wl", To: d, A: int64(r.intn(5000))}, {T: "cput", F: pick(r, c05Signers), To: d, N: 1, K: 1, A: 3}})
+				later = append(later, c01ManifestUses(r, d))
+				later = append(later, []c05Op{{T: "cupdate", F: pick(r, c05Signers), To: d, K: r.intn(c01NShapes)}})
+				later = append(later, append([]c05Op{{T: "wl", To: d, A: int64(r.intn(5000))}, {T: "cput", F: pick(r, c05Signers), To: d, N: 1, K: 1, A: 3}}, c01ManifestUses(r, d)...))
 				if r.chance(50) {
-					later = append(later, []c05Op{{T: "cupdate", F: pick(r, c05Signers), To: d}})
+					later = append(later, []c05Op{{T: "cupdate", F: pick(r, c05Signers), To: d, K: r.intn(c01NShapes)}})
+					later = append(later, c01ManifestUses(r, d))
 				}
 				later = append(later, []c05Op{{T: "cdestroy", F: pick(r, c05Signers), To: d}})
-				later = append(later, []c05Op{{T: "deploy", F: d}, {T: "wl", To: d, A: 5}})
+				later = append(later, []c05Op{{T: "deploy", F: d, K: r.intn(c01NShapes)}, {T: "wl", To: d, A: 5}})
 			case x < 20:
 				// a voted candidate loses its voters and unregisters (its record is dropped), registers again later and
 				// is voted again
